@@ -19,7 +19,7 @@ from vmon.libutil import monitored
 LEVEL = "exploration"
 SHARDS = {"quick": 16, "thorough": 16}
 MUST = ["schedules.cut_inside_header", "kind.bytes", "kind.file", "kind.socket", "kind.socketpair", "kind.realfile",
-        "bigstream.packets", "via_packet_generator", "filepos.written", "filepos.partly-read", "filepos.at-end", "filepos.parsed-once"]
+        "bigstream.packets", "via_packet_generator", "filepos.written", "filepos.partly-read", "filepos.at-end", "filepos.parsed-once", "file.update_mode", "header.all-zero"]
 RULE = ("each case = (packet list, prefix length k, source kind, read size / recv schedule); the generator is stepped "
         "with next() under a step budget and the yielded sequence compared with the packet list. Enumerated "
         "completely: all 2^13 recv compositions of a 14-byte two-packet stream and all 2^9 of a 10-byte prefixed "
@@ -35,7 +35,9 @@ ASSUMPTIONS = ["on sockets there is no end of stream: exactly N items are taken 
 
 
 def mkpacket(rng, dlen, hdr4=None):
-    h = hdr4 if hdr4 is not None else rng.getrandbits(32).to_bytes(4, "big")
+    # header words: random, with the all-zero / all-one / single-bit patterns over-represented (an all-zero primary header
+    # with a one-byte data field is a legal packet)
+    h = hdr4 if hdr4 is not None else rng.choice([rng.getrandbits(32), rng.getrandbits(32), 0, 0xFFFFFFFF, 1 << rng.randrange(32), 0xC000]).to_bytes(4, "big")
     return h + (dlen - 1).to_bytes(2, "big") + bytes(rng.getrandbits(8) for _ in range(min(dlen, 64))) * 1 + \
         (bytes([rng.getrandbits(8)]) * (dlen - 64) if dlen > 64 else b"")
 
@@ -129,6 +131,19 @@ def run_case(ctx, kind, pkts, stream, k, r=None, chunks=None, rng=None, via_def=
             os.write(fd, stream)
             os.close(fd)
             src = open(tmp, "rb")
+        elif kind == "realfile-update":
+            # a real file opened for update, written in pieces, only partly flushed, handed over without rewinding
+            fd, tmp = tempfile.mkstemp(prefix="vmon-c02-", dir=os.environ.get("VMON_SCRATCH"))
+            os.close(fd)
+            src = open(tmp, "w+b")
+            borders, pos_ = [], 0
+            for p_ in pkts:
+                pos_ += k + len(p_)
+                borders.append(pos_)
+            cutp = rng.choice(borders) if rng.random() < 0.7 else rng.randrange(0, len(stream) + 1)   # e.g. a checkpoint after a batch
+            src.write(stream[:cutp])
+            src.flush()
+            src.write(stream[cutp:])
         elif kind == "socket":
             src = sources.ScriptedSocket(sources.cut(stream, chunks))
         elif kind == "socketpair":
@@ -141,7 +156,7 @@ def run_case(ctx, kind, pkts, stream, k, r=None, chunks=None, rng=None, via_def=
             gen = P.ccsds_generator(src, **kw)
         is_sock = kind in ("socket", "socketpair")
         items, end = step_all(ctx, gen, len(pkts), take_exactly=len(pkts) if is_sock else None)
-        ok = judge(ctx, kind if kind not in ("shortfile", "bytesio", "bytesio-pos") else "file", pkts, items, end, wit,
+        ok = judge(ctx, {"shortfile": "file", "bytesio": "file", "bytesio-pos": "file", "realfile-update": "realfile"}.get(kind, kind), pkts, items, end, wit,
                    "taken" if is_sock else "stop")
         gen.close()
         # ---- source-side history checks ---------------------------------------------------------------
@@ -165,7 +180,7 @@ def run_case(ctx, kind, pkts, stream, k, r=None, chunks=None, rng=None, via_def=
             if kind == "socketpair":
                 snd.close()
                 th.join(5)
-        if kind == "realfile" and src is not None:
+        if kind in ("realfile", "realfile-update") and src is not None:
             src.close()
             os.unlink(tmp)
 
@@ -234,6 +249,9 @@ def run(ctx):
                     run_case(ctx, "bytesio", pkts, stream, k, r=r)
                 if item % 3 == 0 and len(stream) < 20000:
                     run_case(ctx, "bytesio-pos", pkts, stream, k, r=r, rng=rng, sig=("filepos", rclass(r, len(stream))))
+                if item % 4 == 0 and len(stream) < 200000:
+                    run_case(ctx, "realfile-update", pkts, stream, k, r=r, rng=rng, sig=("file-update-mode", rclass(r, len(stream))))
+                    ctx.count("file.update_mode")
                 if item % 7 == 0:
                     run_case(ctx, "file", pkts, stream, k, r=r, via_def=True, sig=("viadef",))
 
@@ -261,6 +279,21 @@ def run(ctx):
             sizes = [rng.randrange(1, 40) for _ in range(len(stream) // 10 + 2)]
             run_case(ctx, "socketpair", pkts, stream, k, r=rng.choice([None, 1, 7, 4096]), chunks=sizes,
                      sig=("socketpair", "k" + str(k)))
+    # ---- 3b. packets whose whole primary header is zero (APID 0, counts 0, one data byte) anywhere in a stream ---------------
+    for trial in range(12):
+        item += 1
+        if not ctx.mine(item):
+            continue
+        k = (0, 0, 2)[trial % 3]
+        zero = bytes(6) + bytes([rng.getrandbits(8)])
+        pkts = [mkpacket(rng, rng.choice([1, 2, 9])) for _ in range(rng.randrange(0, 4))] + [zero] + \
+               [mkpacket(rng, rng.choice([1, 3])) for _ in range(rng.randrange(0, 4))] + ([zero] if trial % 2 else [])
+        stream = b"".join(bytes(0x80 | rng.getrandbits(7) for _ in range(k)) + p for p in pkts)
+        for kind in ("bytes", "file", "bytesio"):
+            run_case(ctx, kind, pkts, stream, k, r=rng.choice([None, 1, 7, 4096]) if kind != "bytes" else None, sig=("zero-header", kind, k))
+        sizes = [rng.randrange(1, 9) for _ in range(len(stream))]
+        run_case(ctx, "socket", pkts, stream, k, chunks=sizes, sig=("zero-header", "socket", k))
+        ctx.count("header.all-zero")
     # ---- 4. random header words / many packets -----------------------------------------------------------
     for trial in range(ctx.size(40, 40000)):
         item += 1
